@@ -16,7 +16,11 @@
     statement does not ask for an unchanged element; the model lists the setters that mutate
     before validating in Diag_C09).  What the statement does forbid -- a getter that raises after a
     refusal, a sibling reading changed -- is refuted with witnesses (C09_*_refuted below, replayed
-    on the implementation by the check).  The quantum bound is
+    on the implementation by the check).  Placeholder geometry (left / top / width / height of
+    _InheritsDimensions, whose setter reads the base placeholder and writes the displaced dimensions
+    back: constructor Keep of the setter language) has overlapping footprints, so C09_frame does not
+    apply; C09_frame_placeholder proves the clause for it directly, for every state and value, with
+    the former refutation kept as a regression Example.  The quantum bound is
     proved for EMU (exact), Font.size and paragraph spacing (1/100 pt), ST_Percentage (1/100000:
     crop, gradient stops, lumMod/lumOff) and ST_Angle (1/60000 degree modulo 360: rotation) for every
     accepted value; for the remaining float conversions (line spacing in lines, gradient angle,
@@ -49,6 +53,44 @@ Theorem C09_frame : forall a b, e_indep a b = true ->
   forall v s, WF s -> eval (e_get b) (fst (run (e_set a) v s)) = eval (e_get b) s.
 Proof. exact entry_frame. Qed.
 Print Assumptions C09_frame.
+
+(** refined frame: while the elements of L exist (and the setter never removes or replaces an
+    ancestor-or-self of one), get_or_add of them writes nothing: the setter changes only writes_in L *)
+Theorem C09_run_present : forall L p, safe L p = true -> forall v s, WF s -> all_present L s = true ->
+  all_present L (fst (run p v s)) = true.
+Proof. exact run_present. Qed.
+Print Assumptions C09_run_present.
+
+Theorem C09_run_frame_present : forall L p, safe L p = true -> forall v s, WF s -> all_present L s = true ->
+  forall k, in_writes k (writes_in L p) = false -> lookup k (fst (run p v s)) = lookup k s.
+Proof. exact run_frame_in. Qed.
+Print Assumptions C09_run_frame_present.
+
+(** C09_frame under Keep (a setter that reads, before assigning, the inherited value of every listed
+    reading without an own value and assigns those values afterwards): a kept reading that had the
+    value x -- own, or inherited while the own value was None -- has it as its own value after an
+    accepted assignment; and the write-back does not disturb what the assigned property reads *)
+Theorem C09_keep_reads : forall g L x, x <> PNone ->
+  (forall s y, eval g s = Ok y -> y <> PNone -> all_present L s = true) ->
+  forall before after rb main v s,
+  kp_own rb = g ->
+  safe L main = true -> forallb (fun k => negb (in_writes k (writes_in L main))) (reads g) = true ->
+  keeps_quiet g L (before ++ after) = true ->
+  (forall s0 s1 u, WF s0 -> run_steps (kp_wr rb) (plain x) s0 = (s1, Ok u) -> eval g s1 = Ok x) ->
+  WF s -> snd (run (Keep (before ++ rb :: after) main) v s) = Ok tt ->
+  eval (GOrElse g (kp_inh rb)) s = Ok x ->
+  eval g (fst (run (Keep (before ++ rb :: after) main) v s)) = Ok x.
+Proof. exact keep_reads. Qed.
+Print Assumptions C09_keep_reads.
+
+Theorem C09_keep_assigned_reads : forall g L x, x <> PNone ->
+  (forall s y, eval g s = Ok y -> y <> PNone -> all_present L s = true) ->
+  forall rs main v s,
+  keeps_quiet g L rs = true -> WF s -> snd (run (Keep rs main) v s) = Ok tt ->
+  eval g (fst (run main v s)) = Ok x ->
+  eval g (fst (run (Keep rs main) v s)) = Ok x.
+Proof. exact keep_assigned_reads. Qed.
+Print Assumptions C09_keep_assigned_reads.
 
 (** C09_get_set, builder (A): value conversion, get_or_add down the chain, typed attribute.
     [stored] is the default when the assignment deleted the attribute, else the decoding of the
@@ -213,6 +255,12 @@ Theorem C09_position_exact : forall z, (-27273042329600 <= z <= 27273042316900)%
 Proof. exact coordinate_exact. Qed.
 Print Assumptions C09_position_exact.
 
+Theorem C09_size_exact : forall z, (0 <= z <= 27273042316900)%Z ->
+  stored (ad_codec A_CT_PositiveSize2D__cx) (ad_kind A_CT_PositiveSize2D__cx) (PInt z) = Ok (PInt z)
+  /\ stored (ad_codec A_CT_PositiveSize2D__cy) (ad_kind A_CT_PositiveSize2D__cy) (PInt z) = Ok (PInt z).
+Proof. exact size_exact. Qed.
+Print Assumptions C09_size_exact.
+
 Theorem C09_margin_exact : forall z, (-2147483648 <= z <= 2147483647)%Z ->
   stored (ad_codec A_CT_TextBodyProperties__lIns) (AOpt PNone) (PInt z) = Ok (PInt z).
 Proof. exact margin_exact. Qed.
@@ -302,16 +350,85 @@ Theorem C09_reject_theme_color_unchanged :
 Proof. exact theme_color_reject_unchanged. Qed.
 Print Assumptions C09_reject_theme_color_unchanged.
 
-Theorem C09_frame_placeholder_refuted :
+(** placeholder geometry.  C09_frame_placeholder: after an ACCEPTED assignment (any value v) to one of
+    left / top / width / height of a placeholder in ANY well-formed state, each of the other three that read
+    an integer before -- its own, or its base placeholder's while it had none -- reads the same integer.
+    The guard is exactly: tree-shaped state, accepted assignment, the other dimension has a reading; a refused
+    assignment changes nothing (C09_reject_placeholder_unchanged) and a dimension without any reading takes
+    the 0 of its partner's new a:off / a:ext (Example C09_placeholder_none_partner_reads_zero). *)
+Theorem C09_placeholder_entries_in_catalogue :
+  map (fun e => find_entry (entry_label e)) ph_entries = map Some ph_entries.
+Proof. exact ph_entries_in_catalogue. Qed.
+Print Assumptions C09_placeholder_entries_in_catalogue.
+
+Theorem C09_frame_placeholder : forall a b ea eb,
+  nth_error ph_entries a = Some ea -> nth_error ph_entries b = Some eb -> a <> b ->
+  forall v s z, WF s -> snd (run (e_set ea) v s) = Ok tt -> eval (e_get eb) s = Ok (PInt z) ->
+  eval (e_get eb) (fst (run (e_set ea) v s)) = Ok (PInt z).
+Proof. exact ph_others_read_same. Qed.
+Print Assumptions C09_frame_placeholder.
+
+(** C09_get_set for the assigned dimension of a placeholder: accepted by the simple type, and it reads what
+    the written text decodes to (the int itself: C09_position_exact, C09_size_exact) *)
+Theorem C09_get_set_placeholder : forall a ea ma,
+  nth_error ph_entries a = Some ea -> nth_error ph_dims a = Some ma ->
+  forall v s x, WF s -> snd (run (e_set ea) v s) = Ok tt ->
+  stored (ad_codec (dm_decl ma)) (ad_kind (dm_decl ma)) (av_val v) = Ok x -> x <> PNone ->
+  accepts (ad_codec (dm_decl ma)) (ad_kind (dm_decl ma)) (av_val v) = true
+  /\ eval (e_get ea) (fst (run (e_set ea) v s)) = Ok x.
+Proof. exact ph_get_set. Qed.
+Print Assumptions C09_get_set_placeholder.
+
+(** non-vacuity of the two: a state and a value that meet the hypotheses *)
+Example C09_ex_placeholder_guard :
+  exists ea eb, nth_error ph_entries 0 = Some ea /\ nth_error ph_entries 1 = Some eb
+  /\ wf w_placeholder = true /\ snd (run (e_set ea) (plain (PInt 914400)) w_placeholder) = Ok tt
+  /\ eval (e_get eb) w_placeholder = Ok (PInt 1600200)
+  /\ stored (ad_codec A_CT_Point2D__x) (ad_kind A_CT_Point2D__x) (PInt 914400) = Ok (PInt 914400).
+Proof. exact ex_ph_guard. Qed.
+
+(** regression: the witness of the former C09_frame_placeholder_refuted (top read 0 after left was assigned,
+    when the setter was the bare element-level assignment) now keeps its reading; the footprints still overlap *)
+Example C09_frame_placeholder_witness :
   let l := entry_named "_InheritsDimensions.left@sp" in
   let t := entry_named "_InheritsDimensions.top@sp" in
   wf w_placeholder = true
   /\ eval (e_get t) w_placeholder = Ok (PInt 1600200)
   /\ snd (run (e_set l) (plain (PInt 914400)) w_placeholder) = Ok tt
-  /\ eval (e_get t) (fst (run (e_set l) (plain (PInt 914400)) w_placeholder)) = Ok (PInt 0)
+  /\ eval (e_get t) (fst (run (e_set l) (plain (PInt 914400)) w_placeholder)) = Ok (PInt 1600200)
+  /\ lookup (pth "p:spPr/a:xfrm/a:off", Some (s2l "y")) (fst (run (e_set l) (plain (PInt 914400)) w_placeholder)) = Some (s2l "1600200")
+  /\ eval (e_get l) (fst (run (e_set l) (plain (PInt 914400)) w_placeholder)) = Ok (PInt 914400)
   /\ e_indep l t = false.
-Proof. exact placeholder_frame_refuted. Qed.
-Print Assumptions C09_frame_placeholder_refuted.
+Proof. exact placeholder_frame_witness. Qed.
+
+(** the guard is needed: without a reading of its own or of the base, the partner of an assigned (or
+    written-back) dimension reads 0 afterwards *)
+Example C09_placeholder_none_partner_reads_zero :
+  let l := entry_named "_InheritsDimensions.left@sp" in
+  let t := entry_named "_InheritsDimensions.top@sp" in
+  let w := entry_named "_InheritsDimensions.width@sp" in
+  let h := entry_named "_InheritsDimensions.height@sp" in
+  wf w_placeholder_no_top = true
+  /\ eval (e_get t) w_placeholder_no_top = Ok PNone /\ eval (e_get w) w_placeholder_no_top = Ok PNone
+  /\ snd (run (e_set l) (plain (PInt 914400)) w_placeholder_no_top) = Ok tt
+  /\ eval (e_get t) (fst (run (e_set l) (plain (PInt 914400)) w_placeholder_no_top)) = Ok (PInt 0)
+  /\ eval (e_get w) (fst (run (e_set l) (plain (PInt 914400)) w_placeholder_no_top)) = Ok (PInt 0)
+  /\ eval (e_get h) (fst (run (e_set l) (plain (PInt 914400)) w_placeholder_no_top)) = Ok (PInt 100).
+Proof. exact placeholder_none_partner_reads_zero. Qed.
+
+(** order of evaluation of the setter: readings first (an exception leaves the element untouched), then the
+    assignment, then the write-backs in order (a base value its simple type refuses raises after the earlier ones) *)
+Example C09_placeholder_evaluation_order :
+  let l := entry_named "_InheritsDimensions.left@sp" in
+  let w := entry_named "_InheritsDimensions.width@sp" in
+  let h := entry_named "_InheritsDimensions.height@sp" in
+  run (e_set w) (plain (PInt 914400)) w_placeholder_bad_off = (w_placeholder_bad_off, Err OtherErr)
+  /\ snd (run (e_set l) (plain (PInt 1)) w_placeholder_bad_base) = Err ValueErr
+  /\ lookup (pth "p:spPr/a:xfrm/a:off", Some (s2l "x")) (fst (run (e_set l) (plain (PInt 1)) w_placeholder_bad_base)) = Some (s2l "1")
+  /\ lookup (pth "p:spPr/a:xfrm/a:off", Some (s2l "y")) (fst (run (e_set l) (plain (PInt 1)) w_placeholder_bad_base)) = Some (s2l "7")
+  /\ present (pth "p:spPr/a:xfrm/a:ext") (fst (run (e_set l) (plain (PInt 1)) w_placeholder_bad_base)) = false
+  /\ eval (e_get h) (fst (run (e_set l) (plain (PInt 1)) w_placeholder_bad_base)) = Ok (PInt 9).
+Proof. exact placeholder_evaluation_order. Qed.
 
 (** non-vacuity *)
 Example C09_ex_rotation :
